@@ -612,8 +612,17 @@ func rdWfB(r io.ByteReader) bool {
 // hashing (the hash function itself is an external dependency: xxhash through a sync.Pool)
 // ---------------------------------------------------------------------------------------
 
+// SpecNameHash: the hash of a name as an uninterpreted function of the name (A-HASH: deterministic; the
+// self-recursive body makes gcv treat it as uninterpreted).
+func SpecNameHash(n Name) uint64 { return SpecNameHash(n) }
+
 //@ func (Name).Hash
 //@   trusted
+//@   ensures result == SpecNameHash(n)
+
+//@ func (Name).Clone
+//@   trusted
+//@   ensures SpecNameHash(result) == SpecNameHash(n) && len(result) == len(n) && fresh(result)
 
 //@ func (Name).PrefixHash
 //@   trusted
